@@ -98,6 +98,7 @@ def window_geobox(rng: random.Random, entry, npix: Tuple[int, int] = (32, 32), e
     from odc.geo.geobox import GeoBox
 
     crs, lon0, lat0, lon1, lat1 = entry
+    crs_churn()
     ext = extent_deg if extent_deg is not None else rng.choice([0.05, 0.2, 1.0, 2.0])
     ext = min(ext, (lon1 - lon0) * 0.45, (lat1 - lat0) * 0.45)
     lon = rng.uniform(lon0 + ext, lon1 - ext)
@@ -189,6 +190,31 @@ def array_form(data, form: str):
         base.flags.writeable = False
         return base[...]
     return data
+
+
+CHURN = {"n": 0, "crs": 0}
+_churn_rng = random.Random(0xC4A5)
+
+
+def crs_churn(k: int = 3, limit: int = 1200) -> None:
+    """Background noise of a long-running process: every cross-CRS case is preceded by a few throw-away CRSs (per-tile local projections that are used once and
+    dropped), one of which also asks for a transformer.  On the unchanged tree this is irrelevant to every verdict; it only matters for code that remembers things
+    about CRS objects under a bound or by object identity - and then the regular oracles of the calling check see the consequences.  Private RNG, so generator
+    streams are unchanged; capped per process (the parse cache of the unchanged tree keeps every CRS alive)."""
+    if CHURN["n"] >= limit:
+        return
+    CHURN["n"] += 1
+    try:
+        from odc.geo.crs import CRS
+
+        for i in range(k):
+            lon0, lat0 = _churn_rng.uniform(-170, 170), _churn_rng.uniform(-70, 70)
+            c = CRS(f"+proj={_churn_rng.choice(['laea', 'tmerc', 'aeqd'])} +lat_0={lat0:.5f} +lon_0={lon0:.5f} +x_0=0 +y_0=0 +datum=WGS84 +units=m +no_defs")
+            CHURN["crs"] += 1
+            if i == 0:
+                c.transformer_to_crs(CRS("EPSG:4326"))(1000.0, 2000.0)
+    except Exception:  # noqa: BLE001 - noise must never become a verdict
+        pass
 
 
 WARM = {"views": 0, "plain": 0}
